@@ -130,7 +130,7 @@ class VariationalStrategy(_VariationalStrategy):
                 self._variational_distribution.__name__,
             )
 
-        var_cov_root = TriangularLinearOperator(self._variational_distribution.chol_variational_covar)
+        var_cov_root = TriangularLinearOperator(self._variational_distribution.chol_variational_covar.tril())
         var_cov = CholLinearOperator(var_cov_root)
         var_mean = self.variational_distribution.mean
         if var_mean.shape[-1] != 1:
